@@ -704,7 +704,18 @@ const TOKENS: &[&str] = &[
     "x.PDB", "lib.so", "k.dll", "K.DLL", ".pdb", ".dll", "pdb", "é", "\0", " ", "\t", "\n", "%2e", "%2E%2e", "%2f",
     "%5c", "http:", "https:", "file:", "javascript:", "?", "#", "@", ":", "::", "ü", "日本", "\u{212A}", "\u{130}",
     "\u{202e}", "\u{feff}", "𝒳", "~", "$", "*", "|", "<", ">", "\"", "CON", "NUL", "a.b.c", "..pdb", ".sym", "sym",
+    " (deleted)", "(deleted)", ".pd_", ".dl_", ".exe", ".dbg", ".debug", ".dSYM", ";1", "%00", "\r", "'", "./", ".\\",
 ];
+
+/// unsafe (and one safe) leaves, and decorations that a "helpful" normalisation step might strip or
+/// rewrite before or after the leaf has been validated (section 7 of the generator)
+const HAZARD_LEAVES: &[&str] = &["..", ".", "", "C:", "c:", "a", "...", "x/..", "..\\..", "/", "\\"];
+const DECOR_SUFFIX: &[&str] = &[
+    "", " (deleted)", " (deleted) ", "(deleted)", " (DELETED)", " ", "  ", "\0", "\t", "\r", "\n", "\r\n", ".", "..", ".pdb", ".PDB",
+    ".pd_", ".dll", ".dl_", ".exe", ".so", ".so.1", ".sym", ".dbg", ".debug", ".dSYM", ".gz", ";1", ":Zone.Identifier", "?x",
+    "#x", "%00", "%20", "'", "\"", "`", "<>", "|", "*", "/", "\\", "/.", "\\.", "~1", "\u{feff}", "\u{200b}", "\u{a0}",
+];
+const DECOR_PREFIX: &[&str] = &["", " ", "\t", "./", ".\\", "file://", "\\\\?\\", "/proc/self/root/", "~/", "\"", "'", "\u{feff}", "%2e", "a/", "a\\"];
 
 fn random_name(rng: &mut Rng, max_tokens: u64) -> String {
     let n = rng.range(0, max_tokens);
@@ -957,6 +968,33 @@ impl Engine for Paths {
             emit(url_case(op, base, &c));
         }
         // the join function of the model on its own (no implementation counterpart is public): covered by `url` above
+
+        // (7) decorated hazards: unsafe leaves with prefixes/suffixes that a normalisation step might remove
+        for leaf in HAZARD_LEAVES {
+            for suf in DECOR_SUFFIX {
+                for pre in DECOR_PREFIX {
+                    // the full prefix square only for the classic traversal leaves
+                    if !pre.is_empty() && !suf.is_empty() && !matches!(*leaf, ".." | "." | "" | "C:") {
+                        continue;
+                    }
+                    let name = format!("{pre}{leaf}{suf}");
+                    for op in OPS {
+                        let c = match *op {
+                            "codeinfo" => LookupCase { op: op.to_string(), code: name.clone(), debug: None, did: Did::None, cid: Some("5A0B1C2D1f000".into()) },
+                            "bin" | "moz-bin" => LookupCase { op: op.to_string(), code: name.clone(), debug: Some(name.clone()), did: D_UUID, cid: Some("ab12".into()) },
+                            _ => LookupCase { op: op.to_string(), code: "c.dll".into(), debug: Some(name.clone()), did: D_UUID, cid: None },
+                        };
+                        emit(c.render());
+                    }
+                    if pre.is_empty() {
+                        let c = LookupCase { op: "sym".into(), code: "c.dll".into(), debug: Some(name.clone()), did: D_UUID, cid: Some("ab".into()) };
+                        emit(url_case("sym", "/base/dir/", &c));
+                        let c = LookupCase { op: "bin".into(), code: name.clone(), debug: Some("d.pdb".into()), did: D_UUID, cid: Some("".into()) };
+                        emit(url_case("bin", "/base/dir/", &c));
+                    }
+                }
+            }
+        }
 
         // (6) random long names and identifiers
         let n = if thorough { 400_000 } else { 40_000 };
